@@ -13,6 +13,7 @@ import numpy as np
 
 from gnpy.core.elements import Fiber, RamanFiber, Edfa, Roadm, Fused
 from gnpy.core.parameters import SimParams
+from gnpy.core.exceptions import NetworkTopologyError
 from gnpy.core.science_utils import RamanSolver
 
 from vf import attach, workload as W
@@ -459,7 +460,20 @@ def run_raman(case, ctx):
             lumped.append({'position': pos_km, 'loss': G.pick(rng, [0.3, 0.7])})
             val = val + lumped[-1]['loss']
             ctx.count('raman_lumped_same_position')
-        e1, _ = raman_fibre(rng2, [], length_km=length, cls=Fiber, lumped=lumped, loss_coef=fp['loss_coef'])
+        at_end = rng.random() < 0.15
+        if at_end:
+            # a position exactly at the span end: refused by the constructor ("boundaries excluded"); whatever fibre is
+            # accepted has each of its lumped losses applied once
+            for x in lumped:
+                x['position'] = length
+            pos_km = length
+        try:
+            e1, _ = raman_fibre(rng2, [], length_km=length, cls=Fiber, lumped=lumped, loss_coef=fp['loss_coef'])
+        except NetworkTopologyError:
+            if not at_end:
+                raise
+            ctx.count('raman_lumped_at_span_end_refused')
+            continue
         d = out_loss_db(e1, low) - out_loss_db(e0, low)
         ctx.count('raman_lumped_checks')
         tol = 1e-6 if method == 'perturbative' else 3e-4
